@@ -116,7 +116,7 @@ def faulty_step(events, line):
     j = line - 1
     while j >= 0 and events[j]["b"] == e["b"]:
         x = events[j]
-        if x["ev"] == "txset" and (x.get("failat") or x.get("devfail")):
+        if x["ev"] in ("txset", "cancel") and (x.get("failat") or x.get("devfail")):
             return x
         j -= 1
     return None
